@@ -69,3 +69,107 @@ def first_moment_bound(M: GridModel, mass_diff_flat, cell_weight=1.0):
     X = cell_centres(M)
     mom = np.array([math.fsum((X[:, d] * M.volume * mass_diff_flat).tolist()) for d in range(M.dim)])
     return cell_weight * float(np.linalg.norm(mom))
+
+
+# ---------------------------------------------------------------------------
+# Certified lower bound of  min { cost(u) : div u = f }  by weak duality.
+# cost(u) = sum_{c,q} vol * w_q * | cw * B_cq u |   (B_cq u = RT0 flux at quadrature point q of cell c)
+# For any z_cq with |z_cq| <= 1 and any p with  sum vol*w_q*cw * B_cq^T z_cq = D^T p :
+#     cost(u) >= <p, D u> = <p, f>   for every mass-conserving u.
+# The pair (z, p) is built from an approximate minimiser of the smoothed problem and then
+# made feasible exactly (kernel component removed, then scaled into the unit balls), so the
+# bound is sound whatever the quality of the minimisation.
+def _B_matrices(M: GridModel, l1_mode):
+    pts, wts = rule(M.dim, l1_mode)
+    rows = []  # (weight, matrix dim x num_faces)
+    for c in range(M.num_cells):
+        for p, w in zip(pts, wts):
+            B = np.zeros((M.dim, M.num_faces))
+            for d in range(M.dim):
+                fl, fh = M.reverse[d, c, 0], M.reverse[d, c, 1]
+                if fl >= 0:
+                    B[d, fl] += 1 - p[d]
+                if fh >= 0:
+                    B[d, fh] += p[d]
+            rows.append((w * M.volume, B))
+    return rows
+
+
+def certified_lower_bound(M: GridModel, f_flat, l1_mode, cell_weight=1.0, starts=3, seed=0):
+    """Returns (bound, info). f_flat = integrated mass difference per cell (Fortran order)."""
+    import scipy.linalg as sla
+    import scipy.optimize as sopt
+
+    D = M.divergence_matrix()
+    nf = M.num_faces
+    if nf == 0:
+        return 0.0, {"cycles": 0}
+    u0 = np.linalg.lstsq(D, f_flat, rcond=None)[0]
+    Z = sla.null_space(D)
+    rows = _B_matrices(M, l1_mode)
+    W = np.array([w for w, _ in rows]) * abs(cell_weight)
+    Bs = np.stack([B for _, B in rows])  # (K, dim, nf)
+    scale = max(float(np.sum(W)) * max(float(np.max(np.abs(u0))), 1e-300), 1e-300)
+    eps = 1e-7 * max(float(np.max(np.abs(u0))), 1e-12)
+
+    def g(y):
+        u = u0 + Z @ y if Z.shape[1] else u0
+        v = Bs @ u  # (K, dim)
+        n = np.sqrt(np.sum(v * v, axis=1) + eps * eps)
+        val = float(np.sum(W * n))
+        grad_u = np.einsum("k,kd,kdf->f", W / n, v, Bs)
+        return val, (Z.T @ grad_u if Z.shape[1] else np.zeros(0))
+
+    best_y = np.zeros(Z.shape[1])
+    if Z.shape[1]:
+        rng = np.random.default_rng(seed)
+        best = None
+        for s in range(starts):
+            y0 = np.zeros(Z.shape[1]) if s == 0 else rng.standard_normal(Z.shape[1]) * float(np.max(np.abs(u0)))
+            r = sopt.minimize(lambda y: g(y), y0, jac=True, method="BFGS", options={"gtol": 1e-12 * scale, "maxiter": 2000})
+            if best is None or r.fun < best.fun:
+                best = r
+        best_y = best.x
+    u = u0 + Z @ best_y if Z.shape[1] else u0
+    v = Bs @ u
+    n = np.sqrt(np.sum(v * v, axis=1) + eps * eps)
+    z = v / n[:, None]  # |z| < 1
+    # dual variable in face space: gvec = sum_k W_k B_k^T z_k ; remove its kernel component by a
+    # least-norm correction of z, then rescale into the unit balls (the constraint is homogeneous)
+    A = np.einsum("k,kdf->fkd", W, Bs).reshape(nf, -1)  # gvec = A @ z.ravel()
+    zr = z.reshape(-1)
+    if Z.shape[1]:
+        C = Z.T @ A  # kernel component = C zr ; want 0
+        corr = np.linalg.lstsq(C, C @ zr, rcond=None)[0]
+        zr = zr - corr
+    zz = zr.reshape(z.shape)
+    s = max(1.0, float(np.max(np.sqrt(np.sum(zz * zz, axis=1)))))
+    zz = zz / s
+    gvec = A @ zz.reshape(-1)
+    p = np.linalg.lstsq(D.T, gvec, rcond=None)[0]
+    infeas = float(np.max(np.abs(D.T @ p - gvec)))
+    bound = float(p @ f_flat)
+    primal = float(np.sum(W * np.sqrt(np.sum(v * v, axis=1))))
+    return bound, {"cycles": int(Z.shape[1]), "primal_upper": primal, "dual_infeasibility": infeas, "scale_factor": s, "eps": eps}
+
+
+def unique_flux_thin_grid(M: GridModel, f_flat):
+    """On 1-D and one-cell-thin grids mass conservation determines the flux: prefix sums."""
+    long_axes = [d for d in range(M.dim) if M.shape[d] > 1]
+    assert len(long_axes) <= 1
+    u = np.zeros(M.num_faces)
+    if not long_axes:
+        return u
+    d = long_axes[0]
+    acc = 0.0
+    # cells ordered along the long axis; face between cell i and i+1 carries the prefix sum
+    order = sorted(range(M.num_cells), key=lambda c: M.cells[c][d])
+    face_after = {}
+    for f in M.faces[d]:
+        lo, hi = M.connectivity[f]
+        face_after[lo] = f
+    terms = []
+    for c in order[:-1]:
+        terms.append(f_flat[c])
+        u[face_after[c]] = math.fsum(terms) / M.area[d]
+    return u
